@@ -38,6 +38,7 @@ class _Runner(_Processor):
         self._tasks_processed = 0
 
         self._health_check_server = health_check_server
+        self.forced_stop_wait = 1.0  # seconds cancelled tasks get to hand their messages back
 
         super().__init__(self._conn)
 
@@ -183,3 +184,7 @@ class _Runner(_Processor):
         if self._wait_for_cancel_task is not None:
             self._wait_for_cancel_task.cancel()
         self.cancel_event.set()
+        if self._tasks:
+            # whatever is still running gets cancelled now and hands its message back to the broker:
+            # give that a moment to complete, the caller may exit right after we return
+            await asyncio.wait(self._tasks, timeout=self.forced_stop_wait)
